@@ -24,6 +24,12 @@
 (*   parameters, signatures, expression arguments, quantified variables    *)
 (*   and plan steps keep their order.  Numbers are canonical records, so   *)
 (*   record equality is numeric equality at any magnitude.                 *)
+(*   A constant expression node is a number record whose tag also names    *)
+(*   the node kind: "n" / "N" is the node the expression manager builds    *)
+(*   from the value (INT constant iff integral), "r" / "R" is the REAL      *)
+(*   constant node with an integral value (Real(3/1), type real[3, 3]);    *)
+(*   Int 3 and Real 3/1 are different records, so a codec that turns one   *)
+(*   into the other fails the clause of the section holding the node.      *)
 (* Verdicts are total: every failing clause prints <<"FAIL", id, clause>>. *)
 (***************************************************************************)
 EXTENDS Integers, Sequences, FiniteSets, TLC, Json, IOUtils
